@@ -81,6 +81,22 @@ def check_case(ctx, cs):
             ok, r = _try(ctx, "helpers.degree_elevation", tg, small, lambda: helpers.degree_elevation(p, [list(x) for x in P], num=num))
             if ok and not close_seq(r, exp):
                 ctx.violate("helpers.degree_elevation", tg, small, {"expected": fl(exp), "got": r})
+            # the same polygon written with Python ints / as tuples, and with one list object used for two (equal) entries
+            Pint = [[int(x) if float(x).is_integer() else x for x in pt] for pt in P]
+            for label, poly in (("ints", Pint), ("tuples", tuple(tuple(pt) for pt in P))):
+                ok, r = _try(ctx, "helpers.degree_elevation", tg + [label], small, lambda: helpers.degree_elevation(p, poly if label == "tuples" else [list(x) for x in poly], num=num))
+                if ok and not close_seq([list(x) for x in r], exp):
+                    ctx.violate("helpers.degree_elevation", tg + [label], small, {"expected": fl(exp), "got": r})
+            # a closed polygon written as pts + pts[:1]: the first and the last entry are ONE list object; the answer is that of the same
+            # polygon made of distinct copies (which is bound to the specification by the cases of that degree)
+            if p + 1 + num <= 8:
+                closed_shared = [list(x) for x in P]
+                closed_shared = closed_shared + closed_shared[:1]
+                closed_copies = [list(x) for x in P] + [list(P[0])]
+                ok, r = _try(ctx, "helpers.degree_elevation", tg + ["shared_point_object"], small, lambda: helpers.degree_elevation(p + 1, closed_shared, num=num))
+                ok2, r2 = _try(ctx, "helpers.degree_elevation", tg + ["closed"], small, lambda: helpers.degree_elevation(p + 1, closed_copies, num=num))
+                if ok and ok2 and not close_seq([list(x) for x in r], [list(x) for x in r2]):
+                    ctx.violate("helpers.degree_elevation", tg + ["shared_point_object"], small, {"with_distinct_copies": r2[:2], "got": r[:2]})
             # both operations are linear: the polygon given in a small unit (factor 2^-27, exact in binary floating point)
             ok, r = _try(ctx, "helpers.degree_elevation", tg + ["unit=2^-27"], small, lambda: helpers.degree_elevation(p, [[x * SMALL for x in pt] for pt in P], num=num))
             if ok and not close_seq(unscale(r), exp):
@@ -100,6 +116,10 @@ def check_case(ctx, cs):
             ok, r = _try(ctx, "helpers.degree_reduction", tg, small, lambda: helpers.degree_reduction(p + 1, [list(x) for x in Q]))
             if ok and not close_seq(r, exp, 1e-8):
                 ctx.violate("helpers.degree_reduction", tg, small, {"expected": fl(exp), "got": r})
+            Qint = [[int(x) if float(x).is_integer() else x for x in pt] for pt in Q]
+            ok, r = _try(ctx, "helpers.degree_reduction", tg + ["ints"], small, lambda: helpers.degree_reduction(p + 1, [list(x) for x in Qint]))
+            if ok and not close_seq([list(x) for x in r], exp, 1e-8):
+                ctx.violate("helpers.degree_reduction", tg + ["ints"], small, {"expected": fl(exp), "got": r})
             ok, r = _try(ctx, "helpers.degree_reduction", tg + ["unit=2^-27"], small, lambda: helpers.degree_reduction(p + 1, [[x * SMALL for x in pt] for pt in Q]))
             if ok and not close_seq(unscale(r), exp, 1e-8):
                 ctx.violate("helpers.degree_reduction", tg + ["unit=2^-27"], small, {"expected": fl(exp), "got_rescaled": unscale(r)})
